@@ -77,6 +77,16 @@ CHECKS = {
    technique="exhaustive enumeration of the full product of lossy relation values (720 single relations; all fields of <= 2-3 entries x <= 2 alternatives over a 12-value subset) through print, both readers and the lossy<->lossless conversions",
    text="Every lossy Relation over 2 names x qualifier x 3 version shapes (incl. epoch) x 6 architecture lists (absent, empty, plain, negated) x 4 profile-group shapes, and every Relations value of <= 2 (thorough 3) entries x <= 2 alternatives over 12 representative relations, is printed; the lossy reader must return an equal value, the lossless reader the same structure, lossless::Relation::from(v) must print the same text, lossy::Relation::from(lossless::Relation::from(v)) and Entry<->Vec<Relation> must be identities.",
    note="Component strings outside the menus are not explored."),
+ "C17": dict(
+   category="exploration", design_ref="DESIGN.md §3 C17",
+   technique="exhaustive enumeration of (glob pattern x path) pairs over token/character alphabets and of all small copyright files x paths, executed through both real readers against a backtracking reference matcher and a last-match-wins reference",
+   text="Globs: every pattern of 1-3 tokens (thorough 4) over {a b . / + ( [ * ? \\* \\? \\\\} x every path of 0-2 characters (thorough 3) over {a b . / + ( [ * ? \\} goes through FilesParagraph::matches of the lossless and the lossy reader and must agree with a 10-line backtracking matcher written from the statement ('*' crosses '/', '?' one character, backslash escapes, everything else literal, whole-path match). Lookup: every copyright file of 0-2 (thorough 3) Files paragraphs (80 configurations each: 5 first patterns x second pattern absent / same line / own line x 4 licence kinds) with 4 stand-alone-licence sets x 6 paths must resolve, in both readers, to the last matching paragraph and to its own licence text or else the first stand-alone licence of that name; texts not starting with Format are refused.",
+   note="Backslash followed by another character, empty patterns and text-only licences are outside the domain."),
+ "C19": dict(
+   category="fault_enumeration", design_ref="DESIGN.md §3 C19",
+   technique="exhaustive fault enumeration: for every message of a bounded family, every line truncation, every byte truncation (small sub-family), every trailing addition; reference computed from construction offsets",
+   text="Message family: every sequence of <= 2 armour headers x every sequence of <= 3 (thorough 4) payload lines from 7 templates (empty line, deb822 field, indented line, two marker look-alikes, header look-alike, Unicode) x every sequence of <= 2 signature lines. For every message: the intact message must unwrap to exactly (payload, concatenated signature lines); the payload alone must pass through unchanged; truncation after every line and (for <= 1 header, <= 2 payload lines, <= 1 signature line) at every byte must give MissingPayload / MissingPgpSignature / TruncatedPgpSignature according to where the cut falls relative to the blank line / BEGIN / END markers (a cut inside the first marker line is passthrough); each of 4 trailing additions must give JunkAfterPgpSignature.",
+   note="Payload lines are LF-terminated and never start with '-', as the statement requires."),
 }
 
 PENDING_REASON = "check not built yet in this round (work in progress; DESIGN.md §3 describes the intended bounded exhaustive exploration)"
